@@ -137,6 +137,9 @@ namespace link_layer {
                     if ( opcode == LinkLayer::LL_ENC_REQ && size == 23 )
                     {
                         encryption_in_progress_ = true;
+
+                        // a new request supersedes a pending LL_START_ENC_REQ of an earlier request
+                        start_encryption_requested_ = false;
                         fill< layout_t >( write, { LinkLayer::ll_control_pdu_code, 1 + 8 + 4, LinkLayer::LL_ENC_RSP } );
 
                         const std::uint8_t* const pdu_body = layout_t::body( pdu ).first;
